@@ -17,14 +17,17 @@ package main
 // in the value the call returns.
 
 import (
+	"github.com/simonvetter/modbus"
+	"verifharness/internal/sconn"
 	"strings"
 	"time"
 )
 
 func init() {
-	register("C05", scnTxnHistories, scnTxnWrap)
+	register("C05", scnTxnHistories, scnTxnWrap, scnTxnIds)
 	// txh: same wire format and observables as "ch"; the model side runs the
 	// extracted Model/TxnHistory.v and evaluates the tag predicate
+	executors["txnids"] = execTxnIds
 	executors["txh"] = func(in []string) string {
 		done := make(chan string, 1)
 		go func() {
@@ -279,6 +282,34 @@ func scnTxnHistories(o *Out, r *Rng, thorough bool) {
 		ins = append(ins, genTxnHistory(o, r, n))
 		o.Stat("history")
 	}
+	// many skippable frames within ONE call (late replies piling up, duplicates,
+	// foreign-protocol frames), with and without the own reply behind them
+	for _, k := range []int{7, 8, 9, 15, 16, 17, 40, 100} {
+		for variant := 0; variant < 3; variant++ {
+			q := txnReq{regs: 1, rt: 0, addr: 0}
+			var chunks [][]byte
+			for j := 0; j < k; j++ {
+				switch (j + variant) % 3 {
+				case 0:
+					chunks = append(chunks, replyTo(uint32(1000+j), q, 1, 1, 1)) // other transaction id
+				case 1:
+					f := replyTo(0, q, 1, 1, 1)
+					f[2], f[3] = 0x12, byte(j) // foreign protocol id
+					chunks = append(chunks, f)
+				default:
+					chunks = append(chunks, replyTo(uint32(65535-j), q, 1, 1, 1))
+				}
+			}
+			own := ""
+			if variant != 2 {
+				chunks = append(chunks, replyTo(0, q, 1, 1, 1))
+				own = "+own"
+			}
+			ins = append(ins, "m 1 1 1 ; call s "+writesStr(chunks)+" ReadRegister 0 0 ; call s "+
+				writesStr([][]byte{replyTo(1, q, 1, 1, 1)})+" ReadRegister 0 0")
+			o.Stat("flood:" + itoa(k) + own)
+		}
+	}
 	txnOutcomeStats(o, o.RunMany("txh", ins))
 	// the same histories against the hand-threaded "ch" model handler
 	o.RunMany("ch", ins)
@@ -291,6 +322,37 @@ func scnTxnHistories(o *Out, r *Rng, thorough bool) {
 // distance 65536 the ids coincide (the property speaks of "the following
 // 65535 requests"): the stale frame is returned there, and the reply it
 // displaced is passed over by the next request.
+// txnids: n requests on one client, every one answered at once; output = the
+// transaction ids of the last 8 requests as seen by the peer (the counter's
+// behaviour across the 16-bit wrap, cheaply, in every tier)
+func execTxnIds(in []string) string {
+	n := atoi(in[0])
+	c := sconn.New(true)
+	var ids []string
+	c.OnWrite = func(c *sconn.Conn, b []byte) {
+		if len(b) < 8 {
+			return
+		}
+		ids = append(ids, hxu(uint64(b[0])<<8|uint64(b[1])))
+		if len(ids) > 8 {
+			ids = ids[1:]
+		}
+		c.Feed([]byte{b[0], b[1], 0, 0, 0, 5, b[6], 3, 2, 0, 1})
+	}
+	mc := newClientOn("m", c, 1, 1, 1)
+	for i := 0; i < n; i++ {
+		if _, err := mc.ReadRegister(0, modbus.HOLDING_REGISTER); err != nil {
+			return "err:" + itoa(i) + ":" + errClass(err)
+		}
+	}
+	return strings.Join(ids, ",")
+}
+
+func scnTxnIds(o *Out, r *Rng, thorough bool) {
+	o.Run("txnids", "65540")
+	o.Run("txnids", "131080")
+}
+
 func scnTxnWrap(o *Out, r *Rng, thorough bool) {
 	if !thorough {
 		return
